@@ -197,9 +197,23 @@ impl<'a, 'b> PartialEq<Template<'b>> for Template<'a> {
             let bp = &b[bi];
 
             match (&ap.0, &bp.0) {
+                // Empty text fragments don't contribute to the rendering
+                // Skip them so they're never compared against a hole
+                (PartKind::Text { value }, _) if value.get().is_empty() => {
+                    ai += 1;
+
+                    continue;
+                }
+                (_, PartKind::Text { value }) if value.get().is_empty() => {
+                    bi += 1;
+
+                    continue;
+                }
                 (PartKind::Text { value: ref a }, PartKind::Text { value: ref b }) => {
-                    let a = a.get();
-                    let b = b.get();
+                    // Compare bytes rather than strings; fragments may be split differently
+                    // so the offsets aren't guaranteed to fall on character boundaries
+                    let a = a.get().as_bytes();
+                    let b = b.get().as_bytes();
 
                     let at = &a[ati..];
                     let bt = &b[bti..];
